@@ -134,6 +134,19 @@ theorem linearizable (init : St) (hinit : Inv init) (programs : List (List Op)) 
     (absS init).replay evs = some (absS s.subj) :=
   replay_reachL (initSys_wf init programs) hinit (initSys_waitingIn _ init programs) h
 
+/-- **linearization_point_in_interval** (real-time order): in the log of any schedule each thread's
+    segments come in blocks — a segment is the *first* segment of an operation (its invocation)
+    exactly when the thread has no operation in progress (`pendingAfter`: its last logged segment
+    parked), every other segment of the thread belongs to that operation, and the block ends with
+    the segment that returns (the response). So the returning segment, which `linearizable` uses
+    as the linearization point, lies inside the operation's invocation–response interval, and the
+    linearization order (log order of returning segments) respects real-time order: an operation
+    that returned before another was invoked is linearized before it. -/
+theorem linearization_point_in_interval (init : St) (programs : List (List Op)) (evs : List LEv) (s : Sys St Op)
+    (h : ReachL (initSys init programs) evs s) :
+    Bracketed evs ∧ ∀ t th, s.ths[t]? = some th → (pendingAfter evs t = true ↔ Blocked th) :=
+  bracketed_reachL h
+
 /-- every reachable state has such a log -/
 theorem linearizable_reach (init : St) (hinit : Inv init) (programs : List (List Op)) (s : Sys St Op)
     (hr : Reach subject (initSys init programs) s) :
